@@ -1,6 +1,6 @@
 import Harper.Basic.Proto
 import Harper.Model.Lex
-namespace Harper.Driver
+namespace Harper.Driver.Lex
 open Harper Harper.Proto
 
 /-- `cp:flags` with flag letters `l` (english lingual), `n` (numeric), `a` (alphanumeric) -/
@@ -61,4 +61,4 @@ def handleF64 (args : List String) : String :=
     | none => "bad-op"
   | _ => "bad-op"
 
-end Harper.Driver
+end Harper.Driver.Lex
